@@ -68,11 +68,17 @@ RECURSIVE Unpack(_)
 Unpack(bs) == IF bs = <<>> THEN 0 ELSE Unpack(Take(bs, Len(bs) - 1)) * 256 + bs[Len(bs)]
 RECURSIVE Pack(_, _)
 Pack(v, n) == IF n = 0 THEN <<>> ELSE Append(Pack(v \div 256, n - 1), v % 256)     \* low n bytes, big-endian
-\* code[-4:] numeric, + i, struct.pack(">L")[-vlen:]
+\* code[-4:] numeric, + i, struct.pack(">L")[-vlen:]   - computed on two 16-bit limbs (TLC integers are 32 bits wide)
+Pow256(n) == IF n = 0 THEN 1 ELSE IF n = 1 THEN 256 ELSE 65536
+AddVar(var, i) == LET n == Len(var) IN
+                  IF n <= 2 THEN Pack((Unpack(var) + i) % Pow256(n), n)
+                  ELSE LET lo == Unpack(SubSeq(var, n - 1, n)) + i
+                           hi == (Unpack(SubSeq(var, 1, n - 2)) + lo \div 65536) % Pow256(n - 2) IN
+                       Pack(hi, n - 2) \o Pack(lo % 65536, 2)
 PackAdd(tgt, i) == LET vlen == Min2(4, Len(tgt))
                        pre == Take(tgt, Len(tgt) - vlen)
                        var == Drop(tgt, Len(tgt) - vlen) IN
-                   pre \o Pack(Unpack(var) + i, vlen)
+                   pre \o AddVar(var, i)
 
 Put(m, c, v) == IF c \in CidDom THEN [m EXCEPT ![c] = v] ELSE m
 RECURSIVE PutRange(_, _, _, _)
